@@ -8,7 +8,7 @@ from . import core, gen
 
 PROP = "C08"
 
-from ovld import Ovld, recurse  # noqa: E402
+from ovld import Ovld, call_next, recurse  # noqa: E402
 
 INPUTS = [("1", 1), ("'a'", "a"), ("[1]", [1]), ("[1,'a']", [1, "a"]), ("[[1],'a']", [[1], "a"]), ("[]", [])]
 
@@ -57,6 +57,13 @@ def walker_self(MID, LOG):
     return m
 
 
+def bad_method(MID, LOG):
+    def m(x: bytes):
+        f = call_next
+        return f(x)
+    return m
+
+
 def leaf_int(MID, LOG):
     def m(x: int):
         LOG.append((MID, None))
@@ -72,7 +79,7 @@ def leaf_str(MID, LOG):
 '''
 _FN = "<vtgen:c08>"
 linecache.cache[_FN] = (len(_SRC), None, _SRC.splitlines(True), _FN)
-_G = {"recurse": recurse, "__name__": "vtgen"}
+_G = {"recurse": recurse, "call_next": call_next, "__name__": "vtgen"}
 exec(compile(_SRC, _FN, "exec"), _G, _G)
 gen._FACTORY_GLOBALS.append(_G)
 
@@ -155,14 +162,20 @@ def ref_call(dag, own, kind, w, node, v, memo):
     return ("w", mid, [ref_call(dag, own, kind, w, target, e, memo) for e in v])
 
 
-def build(dag, w, kind, leaves):
+def build(dag, w, kind, leaves, fault=None):
     n = len(dag)
     log = []
     nodes = []
     own = mids(n, w, kind, leaves)
+    build.bad = None
     for i in range(n):
         ov = Ovld(mixins=[nodes[p] for p in dag[i]]) if dag[i] else Ovld()
         nodes.append(ov)
+        if fault == i:
+            # an invalid method registered before the node's own methods: its build fails after the
+            # inherited methods were adapted and before the own ones are
+            build.bad = _G["bad_method"](999, log)
+            ov.register(build.bad)
         for t, mid in own[i].items():
             if t == "list":
                 fn = _G["walker_" + kind](mid, log)
@@ -181,12 +194,18 @@ def run(nodes, log, node, v):
     return (out[0], out[2] if out[0] == "ret" else None)
 
 
-def check(dag, w, kind, leaves, order, acc):
-    nodes, log, own = build(dag, w, kind, leaves)
+def check(dag, w, kind, leaves, order, acc, fault=None):
+    nodes, log, own = build(dag, w, kind, leaves, fault)
     found = []
     # first use of the nodes in the given order
     for node in order:
-        run(nodes, log, node, INPUTS[order.index(node) % len(INPUTS)][1])
+        r = run(nodes, log, node, INPUTS[order.index(node) % len(INPUTS)][1])
+        if node == fault:
+            # the first use failed on the invalid method; it is removed and the function is used again
+            if acc is not None:
+                acc.h("failed_first_use", r[0])
+            nodes[node].unregister(build.bad)
+            run(nodes, log, node, INPUTS[0][1])
     memo = {}
     for node in range(len(dag)):
         for vn, v in INPUTS:
@@ -206,7 +225,7 @@ def check(dag, w, kind, leaves, order, acc):
                 detail = {"node": node, "input": vn, "expected": repr(exp[1]), "got": repr(got[1])}
                 if acc is not None:
                     acc.violation({"dag": [list(d) for d in dag], "walker": [w, kind], "leaves": [list(l) for l in leaves],
-                                   "order": list(order), "node": node, "input": vn}, disc, detail)
+                                   "order": list(order), "node": node, "input": vn, "fault": fault}, disc, detail)
                 else:
                     found.append((disc, detail))
     return found
@@ -221,17 +240,20 @@ def cases(tier):
                 if n == 4:
                     orders = [o for o in orders if o[0] in (0, 3)] if tier == "thorough" else orders[:1]
                 for order in orders:
-                    yield dag, w, kind, leaves, order
+                    yield dag, w, kind, leaves, order, None
+                    if n <= 3 and kind in ("rec", "self"):
+                        # the node used first fails to build once (invalid method), is repaired and used again
+                        yield dag, w, kind, leaves, order, order[0]
 
 
 def shard(shard, nshards, tier, seed):
     acc = core.Acc(PROP)
-    for idx, (dag, w, kind, leaves, order) in enumerate(cases(tier)):
+    for idx, (dag, w, kind, leaves, order, fault) in enumerate(cases(tier)):
         if idx % nshards != shard:
             continue
         acc.count("programs")
         acc.h("nodes", len(dag))
-        check(dag, w, kind, leaves, order, acc)
+        check(dag, w, kind, leaves, order, acc, fault)
         if idx % (nshards * 97) == shard:
             acc.sample({"dag": [list(d) for d in dag], "walker": [w, kind], "leaves": [list(l) for l in leaves], "order": list(order)})
         if acc.n["programs"] % 50 == 0:
@@ -242,7 +264,7 @@ def shard(shard, nshards, tier, seed):
 
 def replay(case):
     found = check(tuple(tuple(d) for d in case["dag"]), case["walker"][0], case["walker"][1],
-                  tuple(tuple(l) for l in case["leaves"]), tuple(case["order"]), None)
+                  tuple(tuple(l) for l in case["leaves"]), tuple(case["order"]), None, case.get("fault"))
     return [f for f in found if f[1]["node"] == case["node"] and f[1]["input"] == case["input"]]
 
 
@@ -253,7 +275,7 @@ def main(tier):
         PROP, tier, "model_checking", merged, t0,
         rule="all derivation DAGs with <= 4 functions (4 nodes: one first-use order in quick, 12 in thorough; fewer leaf placements) in which each derived function has one copied parent and 0-1 extra "
              "mixins x every placement of one list walker (calling recurse, passing recurse as a value, calling or passing its own function by name) and of int / str leaf methods on "
-             "the nodes x all orders of first use of the nodes x nested inputs, probing every node; oracle: a reference interpreter "
+             "the nodes x all orders of first use of the nodes (and, for <= 3 nodes, the variant in which the first node used fails to build once on an invalid method, is repaired and used again) x nested inputs, probing every node; oracle: a reference interpreter "
              "(R5/R6) that re-enters the dispatching node for recurse and the defining node for a self-named walker; result trees "
              "record which node's method handled which element; non-trivial = non-empty list inputs with a defined result",
         assumptions=["reference interpreter R5 / R6 of vt/c08.py"],
